@@ -226,7 +226,7 @@ def judge(ctx, case, out, reply):
     if not rect:
         raise core.Infra("generator produced a ragged matrix")
     if stuck or (not chk_model and min(r, c) > 0):
-        # contradicts `hungarian_certifies`; without a certificate nothing can be decided
+        # contradicts the theorem `hungarian_certifies`; without a certificate nothing can be decided
         raise core.Infra(f"mirror produced no valid certificate on {case}")
     if min(r, c) > 0:
         ctx.count("cert_checked_model")
@@ -335,8 +335,12 @@ def run_cases(ctx, cases):
 def run(ctx, budget):
     ctx.cov["rule"] = RULE
     ctx.cov["missing_theorems"] = MISSING
+    note = ("excluded region: for a matrix with rows but no columns ([[]], [[], []]) solve_hungarian returns "
+            "assignment [] (not [-1] * rows) and objective 0.0; mirrored (hungarian_empty), not judged")
+    if note not in ctx.notes:
+        ctx.notes.append(note)
     cases = list(edge_cases()) + [c["case"] for c in core.load_corpus("C10")]
-    n = 2500 * budget
+    n = 6000 * budget
     cases += [gen_case(ctx.rng, big=(ctx.tier == "thorough" and i % 3 == 0)) for i in range(n)]
     run_cases(ctx, cases)
 
@@ -346,4 +350,4 @@ def replay(ctx, body):
     run_cases(ctx, [body["case"]])
 
 
-MISSING = ["hungarian_certifies"]
+MISSING = []   # hungarian_certifies ([S]) is proved: every [C] and [S] theorem of DESIGN §4 C10 is discharged
